@@ -17,8 +17,10 @@ func New(name string, seed int64) graphql.WorkScheduler {
 	case "lifo":
 		return &seq{pick: func(n int) int { return n - 1 }}
 	case "random":
+		// one scheduler serves every concurrent Execute of a connection: the source is shared
+		var mu sync.Mutex
 		r := rand.New(rand.NewSource(seed))
-		return &seq{pick: func(n int) int { return r.Intn(n) }}
+		return &seq{pick: func(n int) int { mu.Lock(); defer mu.Unlock(); return r.Intn(n) }}
 	case "pool2":
 		return &pool{k: 2}
 	case "pool4":
